@@ -13,6 +13,7 @@ import (
 	"fmt"
 	"io"
 	"math/big"
+	"runtime"
 	"strings"
 
 	"github.com/cloudflare/pat-go/ecdsa"
@@ -350,7 +351,7 @@ func execSigForks(c *ctx, in ev) []ev {
 			return &scriptReader{avail: gI(in, "avail"), chunk: gI(in, "chunk"), errWithData: gBool(in, "err_with_data"), err: errOf(gS(in, "errkind"))}
 		}
 		r1, r2 := mk(), mk()
-		e := ev{"op": op, "avail": r1.avail, "chunk": r1.chunk, "err_with_data": r1.errWithData, "errkind": gS(in, "errkind"), "outcome": "error"}
+		e := ev{"op": op, "avail": r1.avail, "chunk": r1.chunk, "err_with_data": r1.errWithData, "errkind": gS(in, "errkind"), "outcome": "error", "independent": true}
 		e["panic"] = guard(func() {
 			pa, ka, ea := ed25519.GenerateKey(r1)
 			pb, kb, eb := stded.GenerateKey(r2)
@@ -361,6 +362,15 @@ func execSigForks(c *ctx, in ev) []ev {
 			e["same_error"] = ea == eb || (ea != nil && eb != nil && ea.Error() == eb.Error())
 			e["same_consumed"] = r1.consumed == r2.consumed && r1.calls == r2.calls
 			e["same_keys"] = bytes.Equal(pa, pb) && bytes.Equal(ka, kb)
+			e["independent"] = true
+			if ea == nil && eb == nil {
+				// the caller wipes the private key it was handed; the public key it was handed is another value
+				pubBefore := append([]byte{}, pa...)
+				for i := range ka {
+					ka[i] = 0
+				}
+				e["independent"] = bytes.Equal(pa, pubBefore) && bytes.Equal(pa, pb)
+			}
 			e["nil_out"] = pa == nil && ka == nil
 		})
 		return []ev{e}
@@ -859,6 +869,26 @@ func genSigForks(c *ctx, emit func(ev)) {
 					ev{"op": "EdSign", "seed": B(seed), "msg": B(randBytes(r, 70))})
 			}
 			emit(ev{"op": "EdSeq", "steps": steps})
+		}
+		// a history with LARGE messages (several kilobytes): a verification under a key that is not a curve point, then
+		// more valid ones than the machine has processors, then the same again (one goroutine, one call after the other)
+		{
+			seed := randBytes(r, 32)
+			priv := stded.NewKeyFromSeed(seed)
+			pub := []byte(priv.Public().(stded.PublicKey))
+			notPoint := mustHex("0200000000000000000000000000000000000000000000000000000000000000") // y = 2 has no x
+			steps := []any{}
+			for round := 0; round < 2; round++ {
+				msg := randBytes(r, 4096+round*1000+r.Intn(500))
+				sig := stded.Sign(priv, msg)
+				steps = append(steps, ev{"op": "EdVerify", "A": B(pub), "sig": B(sig), "msg": B(msg), "valid": true, "cls": "seq/large-valid"},
+					ev{"op": "EdVerify", "A": B(notPoint), "sig": B(sig), "msg": B(msg), "valid": false, "cls": "seq/large-key-not-a-point"})
+				for k := 0; k < runtime.NumCPU()+3; k++ {
+					steps = append(steps, ev{"op": "EdVerify", "A": B(pub), "sig": B(sig), "msg": B(msg), "valid": true, "cls": "seq/large-valid-after-reject"})
+				}
+				steps = append(steps, ev{"op": "EdVerify", "A": B(notPoint), "sig": B(sig), "msg": B(msg), "valid": false, "cls": "seq/large-key-not-a-point"})
+			}
+			emit(ev{"op": "EdSeq", "steps": steps, "serial": true})
 		}
 		for a := -1; a <= 34; a++ {
 			for _, chunk := range []int{0, 1, 7, 31} {
